@@ -209,8 +209,6 @@ def check_alter(case):
     stmts = [n for n in ast.walk(root) if isinstance(n, ast.stmt)]
     stmts.sort(key=lambda n: (n.lineno, n.col_offset))
     removals = [stmts[i] for i in case["remove"][:1] if i < len(stmts)]  # one removal: the per-call contract of remove_nodes
-    if removals and not case.get("allow_short") and len(ast.get_source_segment(src, removals[0]) or "") < 4:
-        return [], "excluded:F-C03-01"  # known finding: the inserted 'pass' overwrites 4 characters of the removed statement
     # implicit preconditions of the callers: the removed statement sits in the body/orelse of a module, definition,
     # loop, if or with (not in try/except/match arms); replacements and additions are not driven here
     owners = {}
@@ -240,6 +238,39 @@ def check_alter(case):
         return [], None
     if not parses(out):
         return [{"bucket": "alter_code:invalid-output", "case": case, "detail": f"remove {case['remove']} replace {case['replace']} add {case['add']}\n--- input\n{src[:900]}\n--- output\n{out[:900]}"}], out
+    if removals and not replacements and not additions:
+        # reference: the tree without the removed statement ('pass' where a body would be empty)
+        import copy
+        want = copy.deepcopy(root)
+        line, col = removals[0].lineno, removals[0].col_offset
+        for owner in ast.walk(want):
+            for field in ("body", "orelse", "finalbody"):
+                lst = getattr(owner, field, None)
+                if isinstance(lst, list):
+                    for child in list(lst):
+                        if isinstance(child, ast.stmt) and type(child) is type(removals[0]) and (child.lineno, child.col_offset) == (line, col):
+                            lst.remove(child)
+                            if not lst and not isinstance(owner, ast.Module):  # an emptied else/finally keeps a 'pass' as well
+                                lst.append(ast.Pass())
+        def norm(tree):
+            # 'pass' placeholders carry no meaning: next to other statements, or alone in an else / finally
+            for owner in ast.walk(tree):
+                for field in ("body", "orelse", "finalbody"):
+                    lst = getattr(owner, field, None)
+                    if isinstance(lst, list) and lst and isinstance(lst[0], ast.stmt):
+                        rest = [x for x in lst if not isinstance(x, ast.Pass)]
+                        if rest or field != "body" or isinstance(owner, ast.Module):
+                            lst[:] = rest
+                        else:
+                            lst[:] = [ast.Pass()]
+            return ast.unparse(tree)
+
+        try:
+            same = norm(ast.parse(out)) == norm(ast.parse(ast.unparse(want)))
+        except (SyntaxError, ValueError):
+            same = True
+        if not same:
+            return [{"bucket": "alter_code:other-code-changed", "case": case, "detail": f"remove {case['remove']}\n--- input\n{src[:900]}\n--- output\n{out[:900]}"}], out
     return [], out
 
 
